@@ -55,4 +55,7 @@ func init() {
 	setProp("C14", "DESIGN.md §4 C14",
 		"Decides: the shell/hole sign convention of Polygon.Area for both the signed and unsigned variants and the forwarding of the transform; options are forwarded to every nested Area call; the centroid formula selector never applies Dimension() to a possibly-empty or nested-collection member.",
 		"numeric accuracy of the measures, centroid weights, additivity and invariances at value level.")
+	setProp("C18", "DESIGN.md §4 C18",
+		"Decides: the per-coordinate equality (type, XY tolerance, exact Z/M), the identifications IgnoreOrder allows for line strings (identity; reversal; rotation only between two rings), completeness and soundness of the backtracking member matcher, and that every composite comparator compares counts and coordinate types.",
+		"equivalence with WKB equality on all inputs; behaviour of tolerance beyond the squared-distance test.")
 }
